@@ -23,7 +23,7 @@ def run(chk):
     w = C.world_for(chk)
     chk.rule("R03.1", "parser specials == writer escape sets (surface and tag), same escape character, separators agree")
     chk.rule("R03.2", "only ASCII constants and the iterated byte (once, in order) are pushed into the String's byte vector")
-    chk.rule("R03.3", "tag padding tails of the two parsers are twins")
+    chk.rule("R03.3", "tag padding tail of both parsers: slot count after the last tag, padding amount = slot count - own tags")
     chk.rule("R03.4", "one tag marker per tag slot (absent slots keep an empty placeholder)")
     parser = C.find_parser(w, C.S + "::update_tokenized")
     chk.fn(parser, WT)
@@ -98,29 +98,10 @@ def run(chk):
                "%s: per-character tag lists in local %s, tag-count computations at %s, mutable borrows of the lists reachable after the count: %s; "
                "the slot count must be taken after the pending tag of the last character has been appended, otherwise that character can hold more tags than slots" % (pfn, coll, counts, late),
                site=C.site(C.body(w, pfn), late[0][1] if late else None), sample={"parser": sh, "counts": counts, "late": late})
-    sig = {}
+    # the padding of a character's tags up to the slot count: `slot count - (number of its own tags)` absent entries
+    # (any idiom: a counting loop, resize, repeat().take()); both parsers
     for fn in (parser, p2):
-        b = C.body(w, fn)
-        cf = cfgmod.cfg_of(b)
-        # the tail = everything reachable from the block that clears the `tags` parameter (last &mut parameter)
-        tags_param = b.arg_count
-        start = None
-        for bb, t in cfgmod.calls(b):
-            if cfgmod.callee(t) == "alloc::vec::Vec::clear":
-                a = t["args"][0]
-                p = a.get("move") or a.get("copy")
-                sl = C.backward_slice(b, p["local"])
-                if tags_param in sl[2] and len(sl[2]) == 1:
-                    start = bb
-        if start is None:
-            chk.undecided("R03.3", "tail:%s" % fn.split("::")[-1], "tags.clear() not found", site=C.site(b))
-            continue
-        reach = cf.reachable(start)
-        calls = sorted((cfgmod.callee(t) or "?") for bb, t in cfgmod.calls(b) if bb in reach)
-        consts_ = sorted(str(s["rv"]) for bb in reach for s in b.blocks[bb]["stmts"] if s["k"] == "assign" and s["rv"]["k"] in ("aggr",) )
-        sig[fn] = (calls, len(consts_), len(reach))
-    if len(sig) == 2:
-        a, bq = sig[parser], sig[p2]
-        chk.ob("R03.3", "twin(T8)", a[0] == bq[0] and a[1] == bq[1],
-               "the tag padding tails of the two parsers differ: %s vs %s" % (sorted(set(a[0]) ^ set(bq[0])) or (a[1], bq[1]), ""), site=C.site(C.body(w, parser)),
-               sample={"calls": len(a[0]), "blocks": a[2]})
+        pads = [x for x in fmt.tag_padding_amounts(w, fn) if x[1] and x[2]]
+        chk.ob("R03.3", "parser:%s:padding-amount" % fn.split("::")[-1], len(pads) == 1,
+               "%s computes %d padding amounts of the form `slot count - len(tags of the character)`; expected exactly one: every character must be padded to the common number of tag slots"
+               % (fn, len(pads)), site=C.site(C.body(w, fn), pads[0][0] if pads else None), sample={"parser": fn.split("::")[-1], "subtractions": pads})
